@@ -166,6 +166,41 @@ class Check:
             raise Inconclusive(f'solver gave no verdict on query {name!r} within {self.solver_cap_ms} ms ({s.reason_unknown()})')
         return ('sat', s.model()) if r == z3.sat else ('unsat', None)
 
+    def solve_split(self, name, base, disjuncts, chunk=16):
+        """decide And(base) & Or(disjuncts) in chunks of disjuncts, each on a fresh solver (z3's non-incremental pipeline:
+        simplification and bit-blasting, far stronger than its incremental core on these formulas); same verdict as
+        solve(name, base + [Or(disjuncts)]), smaller queries."""
+        t = time.time()
+        res, model, nsub = 'unsat', None, 0
+        work = [disjuncts[i:i + chunk] for i in range(0, len(disjuncts), chunk)][::-1]
+        while work:
+            grp = work.pop()
+            s = z3.Solver()
+            # a chunk that does not finish within a fraction of the cap is split and retried disjunct by disjunct
+            s.set('timeout', self.solver_cap_ms if len(grp) == 1 else max(5000, self.solver_cap_ms // 6))
+            for f in base:
+                s.add(f)
+            s.add(z3.Or(*grp) if len(grp) > 1 else grp[0])
+            r = s.check(); nsub += 1
+            if os.environ.get('VERIF_PROGRESS') and nsub % 10 == 0:
+                print(f'[progress] {name}: sub-query {nsub}, {len(work)} chunks left, {time.time() - t:.0f}s', file=sys.stderr, flush=True)
+            if r == z3.unknown and len(grp) > 1:
+                half = (len(grp) + 1) // 2
+                work.append(grp[half:]); work.append(grp[:half])
+                continue
+            if r == z3.unknown:
+                dt = time.time() - t
+                self.stats['solver_s'] += dt
+                self.queries.append({'name': name, 'result': 'unknown', 's': round(dt, 3), 'sub_queries': nsub})
+                raise Inconclusive(f'solver gave no verdict on sub-query {nsub} of {name!r} within {self.solver_cap_ms} ms ({s.reason_unknown()})')
+            if r == z3.sat:
+                res, model = 'sat', s.model()
+                break
+        dt = time.time() - t
+        self.stats['solver_s'] += dt
+        self.queries.append({'name': name, 'result': res, 's': round(dt, 3), 'sub_queries': nsub})
+        return res, model
+
     def cross_check(self, name, formulas, expect):
         """thorough tier: re-decide with the system z3 4.8.12 binary on the SMT-LIB2 dump"""
         s = z3.Solver()
@@ -363,6 +398,16 @@ def _run_worker(modname, fname, sd, job):
     sys.path.insert(0, os.path.join(VERIF, 'checks'))
     mod = importlib.import_module(modname if modname != '__main__' else os.environ.get('VERIF_MAIN_MODULE', '__main__'))
     C = Check.from_sub(sd)
+    prof = None
+    if os.environ.get('VERIF_PROFILE'):
+        import cProfile, pstats, threading, io
+        prof = cProfile.Profile()
+        def dump():
+            prof.disable()
+            out = io.StringIO(); pstats.Stats(prof, stream=out).sort_stats('cumulative').print_stats(45)
+            print(out.getvalue(), file=sys.stderr, flush=True); os._exit(3)
+        threading.Timer(float(os.environ['VERIF_PROFILE']), dump).start()
+        prof.enable()
     try:
         getattr(mod, fname)(C, job)
     except Inconclusive as e:
